@@ -154,6 +154,13 @@ def _sentinel(lp: ast.While, env: dict[str, ast.AST]) -> tuple[str, str | None]:
         return classify(lhs)  # a break inside the body is judged by the early-exit rule
     if isinstance(lp.test, ast.BoolOp) and isinstance(lp.test.op, ast.And) and any(eof_cmp(v, ast.NotEq) is not None for v in lp.test.values):
         return "extra-exit", None
+    if isinstance(lp.test, ast.Compare) and len(lp.test.ops) == 1 and isinstance(lp.test.ops[0], ast.NotIn) and isinstance(lp.test.comparators[0], (ast.Tuple, ast.List, ast.Set)):
+        # while <header> not in (b'EOF', <other>...): one listed value is the marker, any further one is a second way out of the record loop
+        listed = [unparse(e) for e in lp.test.comparators[0].elts]
+        if "b'EOF'" in listed and len(set(listed)) > 1 and classify(lp.test.left)[0] == "read":
+            return "extra-exit", None
+        if listed and set(listed) == {"b'EOF'"}:
+            return classify(lp.test.left)
     if eof_cmp(lp.test, ast.Eq) is not None:
         return "inverted", None
     if unparse(lp.test) == "True" and breaks:
